@@ -31,6 +31,11 @@ def scribble(obj, seen=None, depth=0):
         return 0
     seen.add(id(obj))
     if isinstance(obj, np.ndarray):
+        if not obj.flags.writeable:
+            try:
+                obj.setflags(write=True)     # a hostile caller re-enables writing on what it was handed
+            except ValueError:
+                pass
         if obj.dtype.kind in "fc":
             try:
                 obj[...] = -7.25e77
@@ -133,6 +138,28 @@ def rand_value(rng, k, n, d):
     return float(rng.random())
 
 
+BASES = []       # caller-owned writable buffers behind read-only views handed to the library (overwritten later)
+
+
+def readonly_view(v):
+    """The caller keeps ownership of the memory and hands over a read-only view (e.g. the output buffer of a compiled model)."""
+    if isinstance(v, np.ndarray) and v.ndim >= 1:
+        base = v.copy()
+        ro = base.view()
+        ro.setflags(write=False)
+        BASES.append(base)
+        return ro
+    return v
+
+
+def scribble_bases():
+    n = 0
+    for b in BASES:
+        n += scribble(b)
+    BASES.clear()
+    return n
+
+
 def run_sequence(rng, n_ops):
     """Returns (violations, op_counts)."""
     from tempest.state_manager import StateManager
@@ -161,19 +188,27 @@ def run_sequence(rng, n_ops):
                 k = str(rng.choice(RefState.CUR))
                 v = rand_value(rng, k, n, d)
                 cp = bool(rng.random() < 0.7)
+                if cp and rng.random() < 0.3:
+                    v = readonly_view(v)
+                    counts["read-only input"] = counts.get("read-only input", 0) + 1
                 sm.set_current(k, v, copy=cp)
                 ref.set(k, v)
                 if cp:
+                    scribble_bases()     # caller reuses the memory behind a read-only view
                     scribble(v)          # caller reuses its buffer
                 note("set(copy=%s)" % cp)
             elif op == "update":
                 ks = [str(k) for k in rng.choice(RefState.CUR, size=int(rng.integers(1, 5)), replace=False)]
                 dd = {k: rand_value(rng, k, n, d) for k in ks}
                 cp = bool(rng.random() < 0.7)
+                if cp and rng.random() < 0.3:
+                    dd = {k: readonly_view(v) for k, v in dd.items()}
+                    counts["read-only input"] = counts.get("read-only input", 0) + 1
                 sm.update_current(dd, copy=cp)
                 for k, v in dd.items():
                     ref.set(k, v)
                 if cp:
+                    scribble_bases()
                     scribble(dd)
                 note("update(copy=%s)" % cp)
             elif op == "commit":
@@ -437,6 +472,8 @@ def run():
         c = dict(runs.small_cfg(i), seed=ck.subseed("twin", i))
         if i % 3 == 2:     # a target with a zero-likelihood region: exercises the warm-up replacement / correction path
             c.update(target="support", tkw=dict(f=0.5), ess_ratio=3.0)
+        if i % 2 == 0:     # the user's vectorised likelihood owns its output memory: read-only view of a buffer reused by the next call
+            c.update(mode="vec", ro_buffer=True)
         return c
     tasks = [("tvf.checks.c17:twin", dict(cfg=tcfg(i), n_iter=ck.pick(6, 10)), None) for i in range(m)]
     for i, st, val in farm.run(tasks, timeout=600, progress="C17-twin"):
@@ -446,6 +483,8 @@ def run():
         bad, hit, nh = val
         ck.case(dict(twin=tasks[i][1]["cfg"]), nontrivial=hit > 0)
         ck.event("sampler twin runs (hostile vs untouched caller)")
+        if tasks[i][1]["cfg"].get("ro_buffer"):
+            ck.event("twin runs whose likelihood returns a read-only view of a reused buffer")
         ck.event("arrays overwritten by the hostile caller", hit)
         for key, what in bad:
             ck.violation(key, what, dict(cfg=tasks[i][1]["cfg"]))
